@@ -44,7 +44,7 @@ def concretise(seq):
     return [op + [10 + i] if op[0] == 'P' else list(op) for i, op in enumerate(seq)]
 
 
-def lru_oracle(cap, ops, nkeys=NKEYS, LRUCache=None, every_step=True):
+def lru_oracle(cap, ops, nkeys=NKEYS, LRUCache=None, every_step=True, trace=None):
     """the property on the real container for one sequence: outputs equal the bounded-LRU
     reference, the structure invariant holds after every step, reads leave it untouched.
     Returns (failure-or-None, outs, dump, items)"""
@@ -83,6 +83,11 @@ def lru_oracle(cap, ops, nkeys=NKEYS, LRUCache=None, every_step=True):
         if bad:
             return ({'case': case, 'what': 'structure invariant after operation %d %r' % (n, op),
                      'expected': 'well-formed bounded doubly linked list', 'observed': bad}, outs, None, None)
+        if trace is not None:
+            # the complete structure after this step (forward walk with prv/nxt/key/value, backward
+            # walk, _dict, len) and what iteration yields
+            trace.append((got, G.dump(cache, num, nkeys),
+                          [(x.key, x.value) for x in (G.walk(cache.head, 'nxt', len(cache._dict) + 2) or [])]))
         if before is not None and (every_step or last) and G.dump(cache, num, nkeys) != before:
             return ({'case': case, 'what': 'read operation %d %r changes the structure' % (n, op),
                      'expected': repr(before), 'observed': repr(G.dump(cache, num, nkeys))}, outs, None, None)
@@ -128,6 +133,8 @@ def lru_shard(arg):
         res.count('lru:len%d' % len(s))
         if fail:
             res.failures.append(fail)
+            if len(res.failures) >= 5:
+                break
             continue
         evicted = sum(1 for o in ops if o[0] == 'P') > cap and len(items) == cap
         if evicted or any(o == 'KE' for o in outs):
@@ -155,25 +162,58 @@ def rand_lru_ops(rng, nkeys, n):
     return ops
 
 
+def lru_trace_compare(batch, res, stream):
+    """batch: (cap, nkeys, ops, trace); the model gives output + structure after every step"""
+    lines = ['C15 lrutrace %d %d %s' % (cap, nk, G.fe([op[0] if len(op) == 1 else op for op in ops]))
+             for cap, nk, ops, _ in batch]
+    answers = proto.run_lines(lines)
+    for (cap, nk, ops, trace), ans in zip(batch, answers):
+        res.streams[stream] = res.streams.get(stream, 0) + len(ops)
+        exp = G.fe([[G.wire_out(o), d + [True], G.wire_out(o), [[k, v] for k, v in items]] for o, d, items in trace])
+        if ans != exp:
+            res.disagreements.append({'stream': stream, 'case': {'kind': 'lru', 'cap': cap, 'nkeys': nk, 'ops': ops},
+                                      'model': ans[:800], 'real': exp[:800]})
+
+
 def lru_random_shard(arg):
+    """seeded random sequences over the whole alphabet; capacities up to 7 (4 and 5 with >= 6 keys
+    so that a hit can land on a node that is neither head, second nor tail); oracle and model
+    comparison of the complete structure after every step"""
     seed, idx, n = arg
     rng = random.Random('%s/%s/C15-lru' % (seed, idx))
     LRUCache = _lru_class()
     res = Result()
     batch = []
-    for _ in range(n):
-        nkeys = rng.choice([2, 3, 5, 8])
-        cap = rng.choice([0, 1, 2, 3, 4, 5, 7])
-        ops = rand_lru_ops(rng, nkeys, rng.randrange(1, 60))
-        fail, outs, dmp, items = lru_oracle(cap, ops, nkeys, LRUCache)
+    for j in range(n):
+        if j % 2 == 0:
+            cap = rng.choice([4, 5])
+            nkeys = rng.choice([6, 7, 8])
+            length = rng.randrange(20, 41)
+        else:
+            nkeys = rng.choice([2, 3, 5, 8])
+            cap = rng.choice([0, 1, 2, 3, 4, 5, 7])
+            length = rng.randrange(1, 60)
+        ops = rand_lru_ops(rng, nkeys, length)
+        trace = []
+        fail, outs, dmp, items = lru_oracle(cap, ops, nkeys, LRUCache, every_step=True, trace=trace)
         res.evaluations += 1
         res.count('lru-random:cap%d' % cap)
         if fail:
             res.failures.append(fail)
+            if len(res.failures) >= 5:
+                break
             continue
+        # hits on an inner node (not head, not second, not tail) of a list of >= 4
+        prev = []
+        for op, (got, _, its) in zip(ops, trace):
+            if op[0] in 'GP' and len(prev) >= 4:
+                pos = [k for k, _ in prev].index(op[1]) if op[1] in [k for k, _ in prev] else -1
+                if 2 <= pos < len(prev) - 1:
+                    res.count('lru-random:inner-node-%s' % ('hit' if op[0] == 'G' else 'restore'))
+            prev = its
         res.nontrivial.add('lru-random:%d:%d:%s' % (cap, nkeys, json.dumps(ops)[:200]))
-        batch.append((cap, nkeys, ops, outs, dmp, items))
-    lru_compare(batch, res, 'lru-random')
+        batch.append((cap, nkeys, ops, trace))
+    lru_trace_compare(batch, res, 'lru-random-every-step')
     if batch:
         res.samples.append({'kind': 'lru', 'cap': batch[0][0], 'ops': batch[0][2][:12]})
     return res
@@ -201,6 +241,7 @@ def run_history(cfg, ops, strict, root, want_answers=True):
     """the property oracle on the real loader for one history (+ what the real loader did, for
     the correspondence). Returns (failure-or-None, answers, stats)"""
     case = {'kind': 'hist', 'cfg': cfg, 'ops': ops, 'strict': strict}
+    GL.validate(cfg, ops)
     run = GL.RealRun(cfg, root)
     spec = GL.PropSpec(cfg, strict=strict)
     answers = []
@@ -235,6 +276,9 @@ def run_history(cfg, ops, strict, root, want_answers=True):
             # --- the clauses of the property
             if run.lock_depth() != 0:
                 fail = bad(i, 'the lock is released on every exit', 0, run.lock_depth())
+            elif not run.path_intact():
+                fail = bad(i, 'a load does not change the configured search path', len(cfg['path']),
+                           len(run.loader.search_path))
             elif after['len'] > cfg['cap']:
                 fail = bad(i, 'at most max_cache_size templates are cached', cfg['cap'], after['len'])
             elif exp['kind'] == 'ok':
@@ -310,6 +354,8 @@ def hist_shard(arg):
         res.count('hist:shadow' if shadow else 'hist:strict')
         if fail:
             res.failures.append(fail)
+            if len(res.failures) >= 5:
+                break
             continue
         nl = sum(1 for o in ops if o[0] == 'L')
         if nl >= 2 and stats['serve:cached'] and (stats['serve:new'] >= 2 or
@@ -328,7 +374,8 @@ def lru_args(ctx):
     for cap in range(4):
         first = True
         for p in itertools.product(range(len(MUT)), repeat=2):
-            args.append((cap, list(p), L, first))
+            # capacity 0 keeps the cache empty and capacity 3 never evicts with 3 keys: one step shorter
+            args.append((cap, list(p), L if cap in (1, 2) else L - 1, first))
             first = False
     return args, L
 
@@ -344,8 +391,8 @@ def run(ctx):
     nh = ctx.n(200, 6500)
     for r in pmap('harness.props.c15', 'hist_shard', [(ctx.seed, i, nh, 25) for i in range(16)]):
         res.merge(r)
-    res.rule = ('container: every sequence over get/set x 3 keys of length <= %d for capacities 0-3 followed by all reads, '
-                'plus random sequences (<= 60 operations, 2-8 keys, capacities 0-7); non-trivial = an eviction or a miss occurred; '
+    res.rule = ('container: every sequence over get/set x 3 keys of length <= %d (capacities 1, 2; one less for 0 and 3) followed by all reads, '
+                'plus seeded random sequences over the whole alphabet (half of them 20-40 operations on capacities 4-5 with 6-8 keys, the rest <= 60 operations, 2-8 keys, capacities 0-7) compared after every step; non-trivial = an eviction or a miss occurred; '
                 % L)
     res.samples = res.samples[:6]
     return res
@@ -367,7 +414,7 @@ def search(ctx, res, broken):
 def replay(ctx, case):
     kind = case.get('kind')
     if kind == 'lru':
-        return lru_oracle(case['cap'], case['ops'], case.get('nkeys', max([NKEYS] + [op[1] + 1 for op in case['ops'] if len(op) > 1])))[0]
+        return lru_oracle(case['cap'], case['ops'], case.get('nkeys') or max([NKEYS] + [op[1] + 1 for op in case['ops'] if len(op) > 1]))[0]
     if kind == 'lru-inherited':
         return inherited_case(case)
     if kind == 'hist':
